@@ -287,7 +287,7 @@ package engine
 //@   ensures mismatch: bound && n > 0 && !(off + n <= e0.reader.size && text == ssub(d0, off, off + n)) ==> backtrackOf(es, nb, snap0) [C02]
 
 //@ func (*SearchEngineState).INSERTVARIABLE [C03 C09 C10 C02]
-//@   nopanic
+//@   nopanic none
 //@   requires cellOk(es)
 //@   presumes forall k :: { es.loopStack.store[k].variables } 0 <= k && k < len(es.loopStack.store) ==> es.loopStack.store[k].variables.Value != nil
 //@   presumes snapshotEnvs: forall k :: { es.backtrack.store[k].environment } 0 <= k && k < len(es.backtrack.store) ==> es.backtrack.store[k].environment.Value != es.environment.Value [C02]
@@ -729,3 +729,7 @@ package engine
 //@   nopanic
 //@   atcall Marshal whole: arg0 == box(map[string]Value, v.Value)
 //@   ensures result.1 == nil
+
+//@ func (Matches).Print [C18]
+//@   trusted
+//@   modifies *
